@@ -1020,6 +1020,50 @@ def special_checks():
         except Exception as e:
             bad.append(dict(case='a constant derivative cannot be differentiated / back-propagated', expression=name,
                             violated=[f'{type(e).__name__}: {e}']))
+    # every call answers for the expression as it is NOW: a result the caller accumulated into in place, or an expression updated in
+    # place, must not leak into later answers for the same (u, t) pair
+    try:
+        x, t = col(0.5, -1.0, 2.0), col(0.3, 0.6, -0.9)
+        u = torch.sin(x * t) + t ** 3 * x
+        want = dict(ut=x * torch.cos(x * t) + 3 * t ** 2 * x, utt=-x ** 2 * torch.sin(x * t) + 6 * t * x, uttt=-x ** 3 * torch.cos(x * t) + 6 * x,
+                    uxx=-t ** 2 * torch.sin(x * t))
+        close = lambda a, b: torch.allclose(a.detach(), b.detach(), rtol=1e-12, atol=1e-12)
+        lap = diff(u, t, order=2)
+        lap += diff(u, x, order=2)                 # the usual way of summing second derivatives
+        flux = diff(u, t)
+        flux *= -0.5
+        obs = [('d2u/dt2 after an earlier result was accumulated into in place', diff(u, t, order=2), want['utt']),
+               ('d3u/dt3 after an earlier second derivative was accumulated into', diff(u, t, order=3), want['uttt']),
+               ('du/dt after an earlier result was scaled in place', diff(u, t), want['ut']),
+               ('d2u/dx2', diff(u, x, order=2), want['uxx']),
+               ('the accumulated sum itself', lap, want['utt'] + want['uxx'])]
+        w = t ** 2 * x
+        d1 = diff(w, t).detach().clone()
+        w += torch.sin(t)                          # the expression is updated in place
+        obs += [('dw/dt after w += sin(t)', diff(w, t), 2 * t * x + torch.cos(t)), ('d2w/dt2 after w += sin(t)', diff(w, t, order=2), 2 * x - torch.sin(t))]
+        for nm, got, wnt in obs:
+            if not close(got, wnt):
+                bad.append(dict(case='in-place use of an earlier result / of the expression between two queries', derivative=nm,
+                                got=got.detach().reshape(-1).tolist(), want=wnt.detach().reshape(-1).tolist(), violated=['differs from the derivative']))
+    except Exception as e:
+        bad.append(dict(case='in-place use of an earlier result between two queries', violated=[f'{type(e).__name__}: {e}']))
+    # the unchecked entry point on operands of different shapes: "identically zero when u does not depend on t" - one zero per row of t
+    try:
+        from neurodiffeq.neurodiffeq import unsafe_diff
+        t = col(0.3, 0.6, -0.9)
+        x = col(0.5, -1.0, 2.0)
+        offset = torch.tensor([[0.7]], requires_grad=True)          # a learnable quantity shared by all samples
+        for nm, u in (('flat u of shape (n,) independent of t', (x * 2).reshape(-1)), ('(1, 1) parameter', offset * 3), ('(n, 2) block independent of t', torch.cat([x, x * x], 1))):
+            for k in (1, 2):
+                for call, fn in (('unsafe_diff', lambda: unsafe_diff(u, t, order=k)), ('diff(shape_check=False)', lambda: diff(u, t, order=k, shape_check=False))):
+                    got = fn()
+                    if tuple(got.shape) != tuple(t.shape) or float(got.detach().abs().max()) != 0.0:
+                        bad.append(dict(case=f'{call} of an expression that does not depend on t', expression=nm, order=k, shape=list(got.shape),
+                                        want_shape=list(t.shape), violated=['the zero derivative does not have one row per row of t']))
+                    elif float((got + t).shape[0]) != 3 or (got + t).shape != t.shape:
+                        bad.append(dict(case=f'{call} of an expression that does not depend on t', expression=nm, order=k, violated=['broadcasts against t']))
+    except Exception as e:
+        bad.append(dict(case='unchecked entry point on an expression that does not depend on t', violated=[f'{type(e).__name__}: {e}']))
     # same values when diff is called inside torch.no_grad() on an expression that was built with grad enabled
     try:
         x, t = col(0.5, -1.0, 2.0), col(0.3, 0.6, -0.9)
